@@ -14,7 +14,7 @@ use crate::httpref::{self, ChunkSpec, Framing, Wire};
 use crate::peers::{Act, End, HttpPeer, Script, Seen};
 use crate::runner::RunCtx;
 
-#[derive(Clone, Debug)]
+#[derive(Clone, Debug, PartialEq)]
 pub enum ReadMode {
     /// Read::read with these buffer sizes, cycled
     Sizes(Vec<usize>, &'static str),
@@ -23,6 +23,11 @@ pub enum ReadMode {
     TextUtf8,
     /// Response::json::<serde_json::Value>() - only chosen when the payload is an (ASCII) JSON document
     Json,
+    /// Response::json_utf8::<serde_json::Value>() - same payloads
+    JsonUtf8,
+    /// Response::text() (charset from the header / default; only chosen for ASCII payloads, where every
+    /// charset the library can pick without a header decodes to the identity)
+    Text,
 }
 
 #[derive(Clone, Debug)]
@@ -43,6 +48,8 @@ pub struct BodyPlan {
     pub end: End,
     pub faults: ConnFaults,
     pub read_mode: ReadMode,
+    /// ReadMode::Sizes reads go through Response::text_reader() instead of the response itself
+    pub via_text_reader: bool,
     pub rereads: usize,
     pub read_timeout_ms: u64,
     pub extra_headers: Vec<(String, Vec<u8>)>,
@@ -117,7 +124,15 @@ pub fn gen_plan(g: &mut G, max_payload: usize) -> BodyPlan {
     let len = g.size(max_payload);
     let mut payload = g.payload(len);
     let mut json_payload = false;
-    if g.chance(1, 12) {
+    let mut ascii_payload = false;
+    if g.chance(1, 10) {
+        // printable ASCII text: can be read through the text helpers with the identity as reference
+        for (i, b) in payload.iter_mut().enumerate() {
+            *b = if i % 61 == 60 { b'\n' } else { 0x20 + (*b % 0x5f) };
+        }
+        ascii_payload = true;
+        g.probe("ascii-text-payload");
+    } else if g.chance(1, 12) {
         // an ASCII JSON document of roughly the drawn size, read through the json() helper
         let items: Vec<String> = (0..(len / 12).max(1)).map(|i| format!("\"k{}\":{}", i, i * 7)).collect();
         payload = format!("{{{}}}", items.join(",")).into_bytes();
@@ -163,8 +178,30 @@ pub fn gen_plan(g: &mut G, max_payload: usize) -> BodyPlan {
             faults.read_eintr.push(g.below(40));
         }
     }
+    let mut via_text_reader = false;
     let read_mode = match g.below(8) {
-        _ if json_payload => ReadMode::Json,
+        k if json_payload => {
+            if k % 2 == 0 {
+                ReadMode::Json
+            } else {
+                g.probe("json_utf8-helper");
+                ReadMode::JsonUtf8
+            }
+        }
+        k if ascii_payload && k < 6 => match k {
+            0 | 1 => {
+                g.probe("text-helper");
+                ReadMode::Text
+            }
+            2 => ReadMode::TextUtf8,
+            _ => {
+                // the streaming text reader, driven by a read-size schedule like a plain body
+                g.probe("text_reader-with-read-sizes");
+                via_text_reader = true;
+                let (v, n) = gen::read_sizes(g);
+                ReadMode::Sizes(v, n)
+            }
+        },
         0 => ReadMode::Bytes,
         1 => ReadMode::WriteTo,
         2 => ReadMode::TextUtf8,
@@ -190,6 +227,7 @@ pub fn gen_plan(g: &mut G, max_payload: usize) -> BodyPlan {
         end: End::Fin,
         faults,
         read_mode,
+        via_text_reader,
         rereads: g.below(4) as usize,
         read_timeout_ms: 30_000,
         extra_headers: extra,
@@ -231,6 +269,7 @@ pub fn plan_from_payload(g: &mut G, payload: Vec<u8>, mut headers: Vec<(String, 
         end: End::Fin,
         faults: ConnFaults { window: 65536, coalesce: g.chance(1, 4), ..Default::default() },
         read_mode: ReadMode::Bytes,
+        via_text_reader: false,
         rereads: 0,
         read_timeout_ms: 30_000,
         extra_headers: headers,
@@ -254,6 +293,8 @@ impl BodyPlan {
             ReadMode::WriteTo => "write_to",
             ReadMode::TextUtf8 => "text_utf8",
             ReadMode::Json => "json",
+            ReadMode::JsonUtf8 => "json_utf8",
+            ReadMode::Text => "text",
         };
         let sz = match self.payload.len() {
             0 => "0",
@@ -398,6 +439,7 @@ pub fn caller_with(plan: &BodyPlan, stop_on_block: bool, tweak: impl FnOnce(atto
     o.status = resp.status().as_u16();
     match &plan.read_mode {
         ReadMode::Sizes(sizes, _) => {
+            let mut resp: Box<dyn Read> = if plan.via_text_reader { Box::new(resp.text_reader()) } else { Box::new(resp) };
             let mut i = 0usize;
             let mut after_end = 0usize;
             let mut ended = false;
@@ -470,9 +512,9 @@ pub fn caller_with(plan: &BodyPlan, stop_on_block: bool, tweak: impl FnOnce(atto
             };
             o.calls.push(Call { what: "write_to", size: 0, t_in, t_out, res, handed_before: 0 });
         }
-        ReadMode::Json => {
+        ReadMode::Json | ReadMode::JsonUtf8 => {
             let t_in = attosim::now_ns();
-            let r = resp.json::<serde_json::Value>();
+            let r = if plan.read_mode == ReadMode::Json { resp.json::<serde_json::Value>() } else { resp.json_utf8::<serde_json::Value>() };
             let t_out = attosim::now_ns();
             let res = match r {
                 Ok(v) => {
@@ -486,9 +528,9 @@ pub fn caller_with(plan: &BodyPlan, stop_on_block: bool, tweak: impl FnOnce(atto
             };
             o.calls.push(Call { what: "json", size: 0, t_in, t_out, res, handed_before: 0 });
         }
-        ReadMode::TextUtf8 => {
+        ReadMode::TextUtf8 | ReadMode::Text => {
             let t_in = attosim::now_ns();
-            let r = resp.text_utf8();
+            let r = if plan.read_mode == ReadMode::Text { resp.text() } else { resp.text_utf8() };
             let t_out = attosim::now_ns();
             let res = match r {
                 Ok(s) => {
